@@ -93,7 +93,10 @@ void ResolverPrivate::onMessageReceived(const Message &message)
     for (const Record &record : records) {
         if (record.name() == name && (record.type() == A || record.type() == AAAA)) {
             cache->addRecord(record);
-            if (!addresses.contains(record.address())) {
+
+            // A record with a TTL of 0 withdraws the address; it must not
+            // be reported as an address of the host
+            if (record.ttl() != 0 && !addresses.contains(record.address())) {
                 emit q->resolved(record.address());
                 addresses.insert(record.address());
             }
